@@ -100,6 +100,11 @@ PROBES = [
      'int onlydefault(int x)\n{\n\tint r = 1;\n\tswitch (x) { default: r = 2; }\n\tswitch (x) { { default: r += 10; } }\n\tswitch (x) { case 1: switch (x) { default: r += 100; } break; case 2: r += 1000; break; }\n'
      '\tswitch (x) { }\n\tswitch (x) while (x > 5) { default: r += 5; break; }\n\treturn r;\n}\n'
      'int main(void)\n{\n\tout_l(pick(257));\n\tout_l(pick(-1));\n\tout_l(pick(1));\n\tout_l(pick(513));\n\tout_l(onlydefault(1));\n\tout_l(onlydefault(2));\n\tout_l(onlydefault(7));\n\treturn 0;\n}\n'),
+    ('pointer-comparisons', 'equality and relational comparison of pointers with null pointer constants on either side, void pointers and function pointers',
+     'void out_l(long);\nint a[4];\nint *p = &a[1], *q = &a[3], *z;\nvoid *v = &a[1];\nint (*fp)(void);\nint fn(void) { return 1; }\n'
+     'int main(void)\n{\n\tout_l((p == 0) + 2 * (0 == p) + 4 * ((void *)0 != p) + 8 * (z == (void *)0) + 16 * ((int *)0 == z));\n'
+     '\tout_l((v == p) + 2 * (p == v) + 4 * (v != q) + 8 * (q > p) + 16 * (p >= q) + 32 * (&a[4] > q));\n\tfp = fn;\n\tout_l((fp == fn) + 2 * (fp != 0) + 4 * (0 == fp) + 8 * (fn == fp));\n'
+     '\tout_l((q - p) * 10 + (p - q) + ((char *)q - (char *)p));\n\tout_l(!p + !z * 2 + !!v * 4 + (p && z) * 8 + (p || z) * 16);\n\treturn 0;\n}\n'),
     (K_COPY_PACKED, 'assignment of a packed struct with an _Alignas member (size 5, alignment 4) copies 8 bytes: access beyond both objects',
      'void out_l(long);\nstruct __attribute__((packed)) P { _Alignas(4) int a; char b; };\nstruct P g1 = { 7, 8 }, g2;\n'
      'int main(void)\n{\n\tstruct P *p = &g2, *q = &g1;\n\t*p = *q;\n\tout_l(g2.a);\n\tout_l(g2.b);\n\treturn 0;\n}\n'),
